@@ -141,8 +141,25 @@ fn retire_then_job() {
     shutdown(&pool);
 }
 
+/// the idle timeout may elapse at ANY moment (a clock thread), also for a worker that was just
+/// spawned for a job the dispatcher has not handed over yet
+fn timeout_at_any_time() {
+    reset(1);
+    let pool = AsyncifyPool::new(1, Duration::from_millis(1));
+    let done = Done::new();
+    let p2 = pool.clone();
+    let clock = thread::spawn(move || elapse_idle_timeout(&p2));
+    submit(&pool, 0, &done);
+    done.wait_for(1);
+    clock.join().unwrap();
+    assert_eq!(RAN[0].load(SeqCst), 1, "ORACLE[job-count] job ran {} times", RAN[0].load(SeqCst));
+    outcome(6);
+    shutdown(&pool);
+}
+
 pub fn scenarios() -> Vec<Scenario> {
     vec![
+        Scenario { name: "pool_timeout_any_time", property: "C17", about: "the idle timeout elapses at an arbitrary moment while one job is being dispatched to a fresh worker", run: timeout_at_any_time, thorough_only: false, heavy: false },
         Scenario { name: "pool_l1_d1_j2", property: "C17", about: "thread_limit 1, one dispatcher, two jobs", run: || dispatchers(1, 1, 2), thorough_only: false, heavy: false },
         Scenario { name: "pool_l1_d2_j1", property: "C17", about: "thread_limit 1, two dispatcher threads (two runtimes sharing the pool), one job each", run: || dispatchers(1, 2, 1), thorough_only: false, heavy: true },
         Scenario { name: "pool_l2_d2_j1", property: "C17", about: "thread_limit 2, two dispatcher threads, one job each", run: || dispatchers(2, 2, 1), thorough_only: false, heavy: true },
